@@ -116,6 +116,7 @@ func freshStr(s string) bool                 { panic("ghost: freshStr is not exe
 func strViewOf(s string, b []byte) bool      { panic("ghost: strViewOf is not executable") }
 func validUTF8(s string) bool                { return utf8.ValidString(s) }
 func isNilSlice(b []byte) bool               { return b == nil }
+func freshObj(x interface{}) bool            { return true }
 func rangeIdx() int                          { panic("ghost: rangeIdx is not executable") }
 func dynTypeIs(x interface{}, t string) bool { return fmt.Sprintf("%T", x) == t }
 func notPartOf(b []byte, x interface{}) bool { return true }
@@ -157,6 +158,7 @@ var _ = ws.StateServerSide
 //@   props C02 C18
 //@   ensures [new] result.r == r && result.mask == mask && result.pos == 0
 //@   ensures [fresh] result != nil
+//@   ensures [fresh] freshObj(result)
 //@   assigns nothing
 
 //@ func CipherReader.Reset
@@ -808,6 +810,12 @@ func specUTF8Wanted(r *Reader, h ws.Header, st ws.State, op ws.OpCode) bool {
 	return r.CheckUTF8 && (h.OpCode == ws.OpText || (st&ws.StateFragmented != 0 && op == ws.OpText))
 }
 
+// The handler of intermediate control frames (OnIntermediate) is user code that reads the control
+// payload through the frame's reader chain: seen from NextFrame it may consume part of the frame
+// (r.raw.N shrinks by what the source position advances) and nothing else of the reader.
+//@ funcval wsutil.FrameHandlerFunc :: (h ws.Header, src io.Reader) (err error)
+//@   assigns nothing
+
 // ufRecvRsv: the RSV bits a receive extension leaves in a header (a function of the header).
 func ufRecvRsv(x RecvExtension, op ws.OpCode, fin bool, length int64, rsv byte) byte { return 0 }
 
@@ -818,9 +826,11 @@ func sameHdrButRsv(a, b ws.Header) bool {
 //@ func Reader.NextFrame
 //@   props C04 C05 C07 C13 C15 C16
 //@   call Reader.fragmented inline
-//@   requires [inv]   invReader(r) && streamOK(r.Source) && r.raw.N == 0 && len(r.Extensions) <= 1 && (len(r.Extensions) == 1 ==> r.Extensions[0] != nil) && r.OnContinuation == nil && r.OnIntermediate == nil
+//@   invoke callback:wsutil.FrameHandlerFunc assigns (&r.raw).N, r.cr.pos, instream(r.Source)
+//@   invoke callback:wsutil.FrameHandlerFunc ensures [consumed] r.raw.N >= 0 && r.raw.N <= old(r.raw.N) && inPos(r.Source) == old(inPos(r.Source))+int(old(r.raw.N)-r.raw.N) && streamOK(r.Source)
+//@   requires [inv]   invReader(r) && streamOK(r.Source) && r.raw.N == 0 && len(r.Extensions) <= 1 && (len(r.Extensions) == 1 ==> r.Extensions[0] != nil) && r.OnContinuation == nil
 //@   ensures  [cut]   !(inEnd(r.Source)-old(inPos(r.Source)) >= 2 && inEnd(r.Source)-old(inPos(r.Source)) >= ws.VSpecNeed(inByte(r.Source, old(inPos(r.Source))+1))) ==> err != nil
-//@   ensures  [cutfrag] len(r.Extensions) == 0 && err == io.EOF ==> old(r.State)&ws.StateFragmented == 0
+//@   ensures  [cutfrag] len(r.Extensions) == 0 && r.OnIntermediate == nil && err == io.EOF ==> old(r.State)&ws.StateFragmented == 0
 //@   ensures  [reject] hdrComplete(r.Source, old(inPos(r.Source))) && !r.SkipHeaderCheck && !ws.VSpecHeaderOK(ws.VSpecDecode(r.Source, old(inPos(r.Source))), old(r.State)) ==> err != nil
 //@   ensures  [limit] hdrComplete(r.Source, old(inPos(r.Source))) && (r.SkipHeaderCheck || ws.VSpecHeaderOK(ws.VSpecDecode(r.Source, old(inPos(r.Source))), old(r.State))) && r.MaxFrameSize > 0 && ws.VSpecDecode(r.Source, old(inPos(r.Source))).Length > r.MaxFrameSize ==> err == ErrFrameTooLarge && inPos(r.Source) == old(inPos(r.Source))+ws.VSpecNeed(inByte(r.Source, old(inPos(r.Source))+1))
 //@   ensures  [failsame] !hdrAccepted(r, r.Source, old(inPos(r.Source)), old(r.State)) ==> err != nil && r.frame == old(r.frame) && r.raw.N == old(r.raw.N) && r.raw.R == old(r.raw.R) && r.State == old(r.State) && r.opCode == old(r.opCode) && r.utf8.state == old(r.utf8.state) && r.utf8.Source == old(r.utf8.Source)
@@ -831,7 +841,7 @@ func sameHdrButRsv(a, b ws.Header) bool {
 //@   ensures  [chain] len(r.Extensions) == 0 && hdrAccepted(r, r.Source, old(inPos(r.Source)), old(r.State)) && !(old(r.State)&ws.StateFragmented != 0 && hdr.OpCode >= 8) ==> (hdr.Masked ==> r.cr != nil && r.cr.r == io.Reader(&r.raw) && r.cr.mask == hdr.Mask && r.cr.pos == 0) && (specUTF8Wanted(r, hdr, old(r.State), r.opCode) ==> r.frame == io.Reader(&r.utf8) && r.utf8.state == old(r.utf8.state) && r.utf8.Source == iteReader(hdr.Masked, io.Reader(r.cr), io.Reader(&r.raw))) && (!specUTF8Wanted(r, hdr, old(r.State), r.opCode) ==> r.frame == iteReader(hdr.Masked, io.Reader(r.cr), io.Reader(&r.raw)) && r.utf8.state == old(r.utf8.state))
 //@   ensures  [ctl]   len(r.Extensions) == 0 && hdrAccepted(r, r.Source, old(inPos(r.Source)), old(r.State)) && old(r.State)&ws.StateFragmented != 0 && hdr.OpCode >= 8 ==> r.State == old(r.State) && r.opCode == old(r.opCode) && r.utf8.state == old(r.utf8.state) && r.frame == old(r.frame) && (err == nil ==> r.raw.N == 0) && r.raw.R == r.Source
 //@   ensures  [mono]  inPos(r.Source) >= old(inPos(r.Source))
-//@   ensures  [cfg]   len(r.Extensions) == old(len(r.Extensions)) && r.OnContinuation == nil && r.OnIntermediate == nil
+//@   ensures  [cfg]   len(r.Extensions) == old(len(r.Extensions)) && r.OnContinuation == nil
 //@   ensures  [inv]   invReader(r) && streamOK(r.Source) && r.Source == old(r.Source) && r.CheckUTF8 == old(r.CheckUTF8)
 //@   assigns *r, *r.cr, instream(r.Source)
 //@   loop 1 invariant [hdr] sameHdrButRsv(hdr, ws.VSpecDecode(r.Source, old(inPos(r.Source)))) && err == nil && -1 <= rangeIdx() && rangeIdx() < len(r.Extensions)
@@ -869,10 +879,10 @@ func iteReader(c bool, a, b io.Reader) io.Reader {
 //@   invoke io.Reader.Read ensures [chaininv] validUTF8State(r.utf8.state) && r.raw.N >= 0 && streamOK(r.Source)
 //@   invoke io.Reader.Read ensures [limited] r.raw.N == old(r.raw.N)-int64(inPos(r.Source)-old(inPos(r.Source))) && inPos(r.Source) >= old(inPos(r.Source))
 //@   invoke io.Reader.Read ensures [ended]  c_err == io.EOF ==> r.raw.N == 0 || (inPos(r.Source) == inEnd(r.Source) && inErr(r.Source) == io.EOF)
-//@   requires [inv]   invReader(r) && streamOK(r.Source) && len(r.Extensions) == 0 && r.OnContinuation == nil && r.OnIntermediate == nil && notPartOf(p, r) && (r.frame == nil ==> r.raw.N == 0) && r.utf8.state != 12
+//@   requires [inv]   invReader(r) && streamOK(r.Source) && len(r.Extensions) == 0 && r.OnContinuation == nil && notPartOf(p, r) && (r.frame == nil ==> r.raw.N == 0) && r.utf8.state != 12
 //@   ensures  [noadvance] old(r.frame) == nil && old(r.State)&ws.StateFragmented == 0 ==> n == 0 && err == ErrNoFrameAdvance
 //@   ensures  [n]     err != ErrInvalidUTF8 ==> 0 <= n && n <= len(p)
-//@   ensures  [eof]   err == io.EOF ==> idleReader(r) && r.State&ws.StateFragmented == 0
+//@   ensures  [eof]   err == io.EOF && (r.OnIntermediate == nil || old(r.frame) != nil) ==> idleReader(r) && r.State&ws.StateFragmented == 0
 //@   ensures  [short] err == nil && r.frame != nil ==> r.raw.N != 0
 //@   ensures  [cleaneof] err == io.EOF && old(r.frame) != nil ==> inEnd(r.Source)-old(inPos(r.Source)) >= int(old(r.raw.N))
 //@   ensures  [more]  err == nil && r.frame == nil ==> r.State&ws.StateFragmented != 0 && r.raw.N == 0
@@ -884,13 +894,13 @@ func iteReader(c bool, a, b io.Reader) io.Reader {
 //@ func Reader.Discard
 //@   props C04 C16 C18
 //@   call Reader.fragmented inline
-//@   requires [inv]  invReader(r) && streamOK(r.Source) && len(r.Extensions) == 0 && r.OnContinuation == nil && r.OnIntermediate == nil && r.frame != nil
+//@   requires [inv]  invReader(r) && streamOK(r.Source) && len(r.Extensions) == 0 && r.OnContinuation == nil && r.frame != nil
 //@   ensures  [idle] idleReader(r) && r.Source == old(r.Source)
 //@   ensures  [whole] err == nil ==> r.State&ws.StateFragmented == 0
 //@   ensures  [cut]  err == nil ==> inEnd(r.Source)-old(inPos(r.Source)) >= int(old(r.raw.N))
 //@   loop 1 invariant [inv] invReader(r) && streamOK(r.Source)
 //@   loop 1 invariant [raw] r.raw.R == r.Source && r.Source == old(r.Source)
-//@   loop 1 invariant [cfg] len(r.Extensions) == 0 && r.OnContinuation == nil && r.OnIntermediate == nil
+//@   loop 1 invariant [cfg] len(r.Extensions) == 0 && r.OnContinuation == nil
 //@   loop 1 invariant [err] err == nil
 //@   loop 1 invariant [first] (r.raw.N == old(r.raw.N) && inPos(r.Source) == old(inPos(r.Source))) || inEnd(r.Source)-old(inPos(r.Source)) >= int(old(r.raw.N))
 
